@@ -189,8 +189,9 @@ static void check_image(void)
 	seenO = clients[O].nmsgs;
 }
 
-enum op { OP_ADD_STATE = 0, OP_ADD_METHOD, OP_ADD_FETCHONLY, OP_REMOVE, OP_CHANGE, OP_SET, OP_CALL, NOP };
-static const char *const OPN[] = {"add-state", "add-method", "add-fetchonly-state", "remove", "change", "set", "call"};
+enum op { OP_ADD_STATE = 0, OP_ADD_METHOD, OP_ADD_FETCHONLY, OP_REMOVE, OP_CHANGE, OP_SET, OP_CALL, OP_LEAVE, NOP };
+static const char *const OPN[] = {"add-state", "add-method", "add-fetchonly-state", "remove", "change", "set", "call", "leaves-and-reconnects"};
+static const enum cl_kind PKIND[NPEER] = {CL_RAW, CL_WS};
 
 static int count_routed_new(int cid, int from)
 {
@@ -221,6 +222,23 @@ static void apply(int peer, int op, int pi)
 	static char namebuf[80];
 	snprintf(namebuf, sizeof(namebuf), "%s:%s(%s)", PN[peer], OPN[op], pathlabel[pi]);
 	last_action = namebuf;
+	if (op == OP_LEAVE) {
+		/* the peer's connection ends: every path it owned is free again, whoever asks for it next; then it comes back as a new peer */
+		sim_client_fin(conn[peer]);
+		jx_settle();
+		if (!sim_conn_closed_by_daemon(conn[peer])) {
+			fail4("departed-peer-not-released", "%s closed its connection and the daemon did not release it", PN[peer]);
+		}
+		for (int i = 0; i < NP; i++) {
+			if (model[i].exists && model[i].owner == peer) {
+				model[i].exists = false;
+			}
+		}
+		conn[peer] = jx_open(PKIND[peer]);
+		stepno++;
+		check_image();
+		return;
+	}
 	const char *val = VALUES[stepno++ % 6];
 	char *pj = jsonstr(paths[pi]);
 	int id = ++reqid;
@@ -416,8 +434,25 @@ static void run(void)
 	struct sim_opts o = {0};
 	jx_boot(&o);
 	O = jx_open(CL_RAW);
-	conn[A] = jx_open(CL_RAW);
-	conn[B] = jx_open(CL_WS);
+	conn[A] = jx_open(PKIND[A]);
+	conn[B] = jx_open(PKIND[B]);
+	if (xp_param("stalled_sub", 0)) {
+		/* a second subscriber to everything that has stopped reading; its write buffer in the daemon is filled up first, so that every
+		 * later notification to it fails: that is its own problem and must not change what a path means for anybody else */
+		int ST = jx_open(CL_RAW);
+		jx_sendf(ST, "{\"id\":\"sf\",\"method\":\"fetch\",\"params\":{\"id\":\"stalled\"}}");
+		jx_settle();
+		sim_set_window(ST, 0);
+		int F = jx_open(CL_RAW);
+		jx_sendf(F, "{\"id\":\"f0\",\"method\":\"add\",\"params\":{\"path\":\"zz-fill\",\"value\":0}}");
+		jx_settle();
+		for (int i = 0; i < (int)(2 * CONFIG_MAX_WRITE_BUFFER_SIZE / 60) + 2; i++) {
+			jx_sendf(F, "{\"id\":\"f%d\",\"method\":\"change\",\"params\":{\"path\":\"zz-fill\",\"value\":\"%040d\"}}", i + 1, i);
+			jx_settle();
+		}
+		strcpy(fillernames[nfill++], "zz-fill"); /* stays, with its owner, outside the universe */
+		xp_count(sim_conn_closed_by_daemon(ST) ? "stalled_subscriber_dropped_by_daemon" : "stalled_subscriber_kept", 1);
+	}
 	jx_sendf(O, "{\"id\":\"of\",\"method\":\"fetch\",\"params\":{\"id\":\"all\"}}");
 	jx_settle();
 	seenO = clients[O].nmsgs;
@@ -454,6 +489,9 @@ static void run(void)
 	for (int d = 0; d < depth; d++) {
 		int c = xp_choose(NPEER * NOP * NP, XP_ACTION, "action");
 		int peer = c / (NOP * NP), op = (c / NP) % NOP, pi = c % NP;
+		if (op == OP_LEAVE && pi != 0) {
+			xp_end_run(); /* leaving has no path argument: one instance per peer */
+		}
 		bb_printf(&trail, "%s%s:%s(%s)", d ? " ; " : "", PN[peer], OPN[op], pathlabel[pi]);
 		xp_logf("## step %d: %s:%s(%s)", d + 1, PN[peer], OPN[op], pathlabel[pi]);
 		apply(peer, op, pi);
@@ -472,6 +510,6 @@ const struct driver drv_c04 = {
     .name = "c04",
     .property = "C04",
     .run = run,
-    .rule = "every sequence of actions up to the depth bound over 2 peers (raw, websocket) x 7 operations (add state / method / fetch-only state, remove, change, set, call) x 3 paths, for three path universes: {empty, 'a', 'A'}, {'ab', a 400-byte path, a 2-byte UTF-8 path}, {three paths with the same home bucket of the path index}; values rotate through 6 JSON values; accepted set/call are answered by the owner at once; oracle after every step: response verdict == reference map verdict, observer's fetch-all replica == map (existence, type, value), get == map; non-trivial = executions that ran to full depth",
+    .rule = "every sequence of actions up to the depth bound over 2 peers (raw, websocket) x 7 operations (add state / method / fetch-only state, remove, change, set, call) x 3 paths, plus 'the peer leaves and reconnects' (every path it owned is free again); optionally (stalled_sub) in the presence of a second fetch-all subscriber that has stopped reading and whose write buffer is full, for three path universes: {empty, 'a', 'A'}, {'ab', a 400-byte path, a 2-byte UTF-8 path}, {three paths with the same home bucket of the path index}; values rotate through 6 JSON values; accepted set/call are answered by the owner at once; oracle after every step: response verdict == reference map verdict, observer's fetch-all replica == map (existence, type, value), get == map; non-trivial = executions that ran to full depth",
     .assumptions = "only success/error (and the internal-error code for refusals by a configured limit) are compared, never message texts|an accepted set/call is recognised by its delivery to the owner",
 };
